@@ -476,9 +476,43 @@ def expand_aliases(func, node, limit: int = 6):
     return out
 
 
+# text cache for the atoms of conditions that are evaluated again and again under different assignments (set to a dict
+# by the caller for the duration of one comparison; entries keep their node alive so that ids stay unique)
+UCACHE = None
+
+
+def _u(node):
+    if UCACHE is None:
+        return U(node)
+    hit = UCACHE.get(id(node))
+    if hit is not None and hit[0] is node:
+        return hit[1]
+    t = U(node)
+    UCACHE[id(node)] = (node, t)
+    return t
+
+
+def _pos_key(test, pos):
+    if UCACHE is None:
+        return U(ast.Compare(left=test.left, ops=[pos], comparators=test.comparators))
+    hit = UCACHE.get(("pos", id(test)))
+    if hit is not None and hit[0] is test:
+        return hit[1]
+    t = U(ast.Compare(left=test.left, ops=[pos], comparators=test.comparators))
+    UCACHE[("pos", id(test))] = (test, t)
+    return t
+
+
 def _is_none_key(left):
     """Atom text of ``<left> is None`` (parenthesised where the operand needs it)."""
-    return U(ast.Compare(left=left, ops=[ast.Is()], comparators=[ast.Constant(None)]))
+    if UCACHE is not None:
+        hit = UCACHE.get(("none", id(left)))
+        if hit is not None and hit[0] is left:
+            return hit[1]
+    t = U(ast.Compare(left=left, ops=[ast.Is()], comparators=[ast.Constant(None)]))
+    if UCACHE is not None:
+        UCACHE[("none", id(left))] = (left, t)
+    return t
 
 
 def bool_eval(test, atoms):
@@ -500,7 +534,7 @@ def bool_eval(test, atoms):
         return atoms[k] if isinstance(test.ops[0], ast.Is) else (not atoms[k])
     if isinstance(test, ast.Compare) and len(test.ops) == 1 and isinstance(test.ops[0], (ast.NotIn, ast.NotEq, ast.IsNot)):
         pos = {ast.NotIn: ast.In, ast.NotEq: ast.Eq, ast.IsNot: ast.Is}[type(test.ops[0])]()
-        v = atoms.get(U(ast.Compare(left=test.left, ops=[pos], comparators=test.comparators)))
+        v = atoms.get(_pos_key(test, pos))
         return None if v is None else (not v)
     if isinstance(test, ast.IfExp):
         t = bool_eval(test.test, atoms)
@@ -509,7 +543,7 @@ def bool_eval(test, atoms):
         return bool_eval(test.body if t else test.orelse, atoms)
     if isinstance(test, ast.Constant) and isinstance(test.value, bool):
         return test.value
-    k = U(test)
+    k = _u(test)
     return atoms.get(k)
 
 
@@ -543,9 +577,9 @@ def bool_atoms(test):
         out.add(_is_none_key(test.left))
     elif isinstance(test, ast.Compare) and len(test.ops) == 1 and isinstance(test.ops[0], (ast.NotIn, ast.NotEq, ast.IsNot)):
         pos = {ast.NotIn: ast.In, ast.NotEq: ast.Eq, ast.IsNot: ast.Is}[type(test.ops[0])]()
-        out.add(U(ast.Compare(left=test.left, ops=[pos], comparators=test.comparators)))
+        out.add(_pos_key(test, pos))
     else:
-        out.add(U(test))
+        out.add(_u(test))
     return out
 
 
